@@ -1,5 +1,6 @@
 import PttVerif.DriverLoop
 import PttVerif.Model.C10
+import PttVerif.Gen.PttConfig
 open PttVerif PttVerif.C05 PttVerif.C10
 
 /-
@@ -25,6 +26,8 @@ structure DSt where
   st : St
   /-- commenters between phase A and phase B: id, the article they hold (if the lookup finds one), their ticket -/
   tickets : List (String × Option Bytes × Except Res Ticket) := []
+  /-- what the deployment's configuration sets (sticky, as viper overrides are) -/
+  viper : List (String × Bool) := []
 
 def fnvAdd (h : UInt64) (bs : List Nat) : UInt64 :=
   bs.foldl (fun h b => (h ^^^ b.toUInt64) * 1099511628211) h
@@ -159,6 +162,10 @@ def parRun (cfg : Cfg) (st : St) (names : List Bytes) (rounds ctype : Nat) (text
       let (st', res) := recommend findLinear cfg acc.1 q
       (st', acc.2 + (match res with | .ok _ _ => 1 | _ => 0))) acc) (st, 0)
 
+/-- the configuration keys the harness sets (bool switches of ptttype/config.go that the harness itself does not depend on). -/
+def confKeys : List String := ["OLDRECOMMEND", "EDITPOST_SMARTMERGE", "GUESTRECOMMEND", "PLAY_ANGEL", "USE_AUTOCPLOG",
+  "DEFAULT_AUTOCPLOG", "NOKILLWATERBALL", "ALL_REEDIT_LOG", "MULTI_WELCOME_LOGIN", "BMCHS", "USE_EDIT_HISTORY", "USE_COMMENTD"]
+
 def stepC10 (d : DSt) (ws : List String) : DSt × String :=
   match ws with
   | ["reset", a, o, s, auto, dir] =>
@@ -167,7 +174,7 @@ def stepC10 (d : DSt) (ws : List String) : DSt × String :=
       if attr ||| attrAllowed ≠ attrAllowed || dir.length > 1048576 || !d.tickets.isEmpty then (d, "bad-op")
       else
         let st : St := { dir := ⟨true, dir⟩, files := autoFiles auto dir (dir.length / dirSz) [] }
-        ({ have_ := true, cfg := { attr, oldRecommend := old, smartMerge := smart }, st, tickets := [] }, "ok " ++ stateStr st)
+        ({ d with have_ := true, cfg := { attr, oldRecommend := old, smartMerge := smart }, st, tickets := [] }, "ok " ++ stateStr st)
     | _, _, _, _, _ => (d, "bad-op")
   | ["file", n, c] =>
     if !d.have_ || !d.tickets.isEmpty then (d, "bad-op") else
@@ -226,6 +233,15 @@ def stepC10 (d : DSt) (ws : List String) : DSt × String :=
   | ["stamp", days] =>
     match parseNatMax days 400 with
     | some _ => (d, "ok")     -- the stamp of another time: no effect on the board (the time of a line is a parameter)
+    | none => (d, "bad-op")
+  | ["conf", k, v] =>
+    -- the deployment sets [go-pttbbs:ptttype] K = v, then ptttype.InitConfig runs (the lines of config() are regenerated)
+    if !d.tickets.isEmpty || !confKeys.contains k then (d, "bad-op") else
+    match parseBit v with
+    | some b =>
+      let viper := setKey d.viper k b
+      let cfg := applyConfig Gen.PttConfig.configLines viper d.cfg
+      ({ d with viper, cfg }, s!"ok old={if cfg.oldRecommend then 1 else 0} smart={if cfg.smartMerge then 1 else 0}")
     | none => (d, "bad-op")
   | ["zone", z] =>
     -- the time part of a line is a parameter of the model (masked on the implementation side after it was judged)
